@@ -102,12 +102,21 @@ const (
 type ApplyError struct {
 	Reason Reason
 	Msg    string
+	// InMember is set when the failure happened inside the object selected
+	// by a keyed path element ({"k":v}).
+	InMember bool
 }
 
 func (e *ApplyError) Error() string { return string(e.Reason) + ": " + e.Msg }
 
 func fail(r Reason, f string, a ...interface{}) error {
 	return &ApplyError{Reason: r, Msg: fmt.Sprintf(f, a...)}
+}
+
+// InMember reports whether an Apply error arose inside a keyed member.
+func InMember(err error) bool {
+	ae, ok := err.(*ApplyError)
+	return ok && ae.InMember
 }
 
 // ReasonOf extracts the classification of an Apply error.
@@ -293,6 +302,9 @@ func applyStrict(cur V, path []PathElem, h Hunk, r val.Reading) (V, error) {
 		}
 		nc, err := applyStrict(l[found], rest, h, val.List)
 		if err != nil {
+			if ae, ok := err.(*ApplyError); ok {
+				ae.InMember = true
+			}
 			return nil, err
 		}
 		l[found] = nc
